@@ -17,6 +17,7 @@ import (
 	corev1 "k8s.io/api/core/v1"
 	metav1 "k8s.io/apimachinery/pkg/apis/meta/v1"
 	"k8s.io/apimachinery/pkg/apis/meta/v1/unstructured"
+	gatewayv1beta1 "sigs.k8s.io/gateway-api/apis/v1beta1"
 )
 
 const (
@@ -494,4 +495,46 @@ func VerifC15_TwoRefsSharingAName() {
 	verifrt.Assert(c15SameUserConfig(c.Find("Unstructured:Widget", "ns", "w1").(*unstructured.Unstructured), widget), "C15.sameName.restore.widget")
 	verifrt.Assert(c15SameUserConfig(c.Find("Unstructured:Gadget", "ns", "w1").(*unstructured.Unstructured), gadget), "C15.sameName.restore.gadget")
 	verifrt.Cover("C15.sameName.done")
+}
+
+// VerifC15_IstioMatchStepKeepsEveryUserRule: a step with matches (header based A/B routing) puts one canary rule per
+// match in front of the VirtualService's http rules — and leaves every rule the user wrote where and as it was:
+// rules for other hosts, rules with their own match, the stable rule itself.
+func VerifC15_IstioMatchStepKeepsEveryUserRule() {
+	r := c15Ctl()
+	script := verifrt.RepoFile("lua_configuration/networking.istio.io/VirtualService/trafficRouting.lua")
+	n := verifrt.Concrete(verifrt.IntRange("vs.nRules", 1, verifrt.Bound("c15.rules", 2, 3)))
+	var rules []interface{}
+	for i := 0; i < n; i++ {
+		rule, _ := c15Rule("rule")
+		rules = append(rules, rule)
+	}
+	spec := map[string]interface{}{"hosts": []interface{}{"*"}, "http": rules}
+	before := util.DumpJSON(spec)
+	m := verifrt.Concrete(verifrt.IntRange("step.nMatches", 1, 2))
+	exact := gatewayv1beta1.HeaderMatchExact
+	strategy := &v1beta1.TrafficRoutingStrategy{}
+	for j := 0; j < m; j++ {
+		strategy.Matches = append(strategy.Matches, v1beta1.HttpRouteMatch{Headers: []gatewayv1beta1.HTTPHeaderMatch{{Type: &exact, Name: gatewayv1beta1.HTTPHeaderName([]string{"x-user", "x-region"}[j]), Value: "canary"}}})
+	}
+	out, err := r.executeLuaForCanary(Data{Spec: spec}, strategy, script)
+	verifrt.Assert(err == nil, "C15.istio.match.noError")
+	if err != nil {
+		return
+	}
+	after := util.DumpJSON(out.Spec)
+	for j := 0; j < m; j++ {
+		idx := fmt.Sprintf("%d", j)
+		verifrt.Assert(c15Get(after, "http", idx, "route", "0", "destination", "host") == c15Canary, "C15.istio.match.canaryRulesInFront")
+		verifrt.Assert(c15Get(after, "http", idx, "match", "0", "headers") != "<absent>", "C15.istio.match.canaryRulesCarryTheMatch")
+	}
+	for i := 0; i < n; i++ {
+		b, a := fmt.Sprintf("%d", i), fmt.Sprintf("%d", m+i)
+		verifrt.Assert(c15Get(after, "http", a, "route", "0", "destination", "host") == c15Get(before, "http", b, "route", "0", "destination", "host"), "C15.istio.match.userRuleKept.host")
+		verifrt.Assert(c15Get(after, "http", a, "route", "0", "weight") == c15Get(before, "http", b, "route", "0", "weight"), "C15.istio.match.userRuleKept.weight")
+		verifrt.Assert(c15Get(after, "http", a, "route", "1") == "<absent>", "C15.istio.match.userRuleKept.notSplit")
+		verifrt.Assert(c15Get(after, "http", a, "match", "0", "uri", "prefix") == c15Get(before, "http", b, "match", "0", "uri", "prefix"), "C15.istio.match.userRuleKept.match")
+	}
+	verifrt.Assert(c15Get(after, "http", fmt.Sprintf("%d", m+n)) == "<absent>", "C15.istio.match.ruleCount")
+	verifrt.Cover("C15.istio.match.done")
 }
